@@ -509,7 +509,7 @@ func c16Run(r *hx.Run, bin string, seq *c16Seq, rnd *rand.Rand) {
 	var err error
 	L.pike, err = hx.NewPike(bin, dirL, c16WithPorts(logical, L.ports), L.ports["S0"]+0)
 	if err != nil {
-		r.Inconclusive("prepare pike: " + err.Error())
+		r.InconclusiveCase("prepare pike: " + err.Error())
 		return
 	}
 	L.pike.AdminAddr = L.admin
@@ -524,7 +524,7 @@ func c16Run(r *hx.Run, bin string, seq *c16Seq, rnd *rand.Rand) {
 		return a
 	}
 	if _, err := L.pike.Start(append(addrsOf(L, logical), L.admin), 30*time.Second); err != nil {
-		r.Inconclusive("live pike does not start: " + err.Error())
+		r.InconclusiveCase("live pike does not start: " + err.Error())
 		return
 	}
 	cs := map[string]interface{}{"sequence": seq}
@@ -532,7 +532,7 @@ func c16Run(r *hx.Run, bin string, seq *c16Seq, rnd *rand.Rand) {
 	stableURI := fmt.Sprintf("/p0/stable?size=2000&n=%d", seq.ID)
 	pre := L.probe(farm, "S0", stableURI, "gzip")
 	if pre.Status != 200 {
-		r.Inconclusive("stable key could not be cached: " + pre.String())
+		r.InconclusiveCase("stable key could not be cached: " + pre.String())
 		return
 	}
 	// continuous traffic on the unchanged server while updates are applied
@@ -697,13 +697,13 @@ func c16Run(r *hx.Run, bin string, seq *c16Seq, rnd *rand.Rand) {
 				// saved, not waited for: the next save arrives while this one is being applied
 				begun := L.pike.CountEvent("update.begin")
 				if err := L.save(c16WithPorts(logical, L.ports), method, &pad); err != nil {
-					r.Inconclusive("cannot write the configuration: " + err.Error())
+					r.InconclusiveCase("cannot write the configuration: " + err.Error())
 					stop.Store(true)
 					twg.Wait()
 					return
 				}
 				if !hx.WaitUntil(10*time.Second, func() bool { return L.pike.CountEvent("update.begin") > begun }) {
-					r.Inconclusive("the first save did not start an update")
+					r.InconclusiveCase("the first save did not start an update")
 					stop.Store(true)
 					twg.Wait()
 					return
@@ -787,12 +787,12 @@ func c16Run(r *hx.Run, bin string, seq *c16Seq, rnd *rand.Rand) {
 	dirF := filepath.Join(r.Scratch, fmt.Sprintf("c16-%d-fresh", seq.ID))
 	F.pike, err = hx.NewPike(bin, dirF, c16WithPorts(logical, F.ports), 0)
 	if err != nil {
-		r.Inconclusive("prepare fresh pike: " + err.Error())
+		r.InconclusiveCase("prepare fresh pike: " + err.Error())
 		return
 	}
 	defer F.pike.Kill()
 	if _, err := F.pike.Start(addrsOf(F, logical), 30*time.Second); err != nil {
-		r.Inconclusive("fresh pike does not start: " + err.Error())
+		r.InconclusiveCase("fresh pike does not start: " + err.Error())
 		return
 	}
 	// probe suite derived from the final configuration
